@@ -24,6 +24,8 @@ ENGINES = [
   "kind_free_text": "ListOfDicts heap-model machine: plain-Python reference universe in bijection with the real item objects, derivation graph for obsolescence, callback faults, whole-heap isolation check after every step"},
  {"name": "e3", "path": "dsim/e3_storage.py", "serves_properties": ["C12", "C14", "C18"],
   "kind_free_text": "storage simulation: scratch directory as disk, write/read/overwrite/restart histories with disk-full (RLIMIT_FSIZE), stream errors at the n-th call (xopen seam), writer killed at byte k, torn files"},
+ {"name": "e12", "path": "dsim/e12_render.py", "serves_properties": ["C20"],
+  "kind_free_text": "dispatcher: C20 render observers run inside E1 histories (2/3 of the runs) and E2 histories (1/3)"},
  {"name": "e4", "path": "dsim/e4_jit.py", "serves_properties": ["C08"],
   "kind_free_text": "JIT-cache process simulation: sequences of real interpreter lifetimes sharing one NUMBA_CACHE_DIR, seeded order of first use of accelerated helpers, cache loss/rollback/truncation and kill-during-cache-save faults"},
 ]
@@ -38,6 +40,18 @@ CHECKS = {
  "C17": ("e2", "arbitrary derivation trees (chains, branches, re-merges via +/extend, copy/deepcopy cuts) with editing methods and callback faults; after every step every live item is compared with its reference twin (no write nobody asked for), deepcopy results must share no mutable object with any live item, and obsolescence flags plus the exactly-once warning on next use are checked against a derivation-graph model",
          "dunder-level access may or may not warn; links that hand on no item (clear/aggregate/map) are 'weak' (either state accepted); after an injected callback fault the receiver's/ancestors' obsolescence is unconstrained",
          "deterministic simulation: seeded op histories + callback fault injection vs reference heap/derivation model", "DESIGN.md 5/C17"),
+ "C01": ("e1", "seeded histories of public DataFrame operations (constructors incl. scalar/length-one broadcast and mismatched lengths, functional methods, item/attribute assignment and deletion, pop, popitem, colnames assignment, delete-then-reassign, method-named and non-identifier names, rejected arguments, callbacks raising mid-operation) on a pool of live frames; after every step every frame in the pool must be rectangular (1-D DataFrameColumns of equal length, unique names in the modelled order) and reachable coherently by key and attribute (removed names by neither)",
+         "attribute access only demanded for identifier names outside dir(DataFrame()); scalar assignment onto a 0-row frame may raise or store an empty column",
+         "deterministic simulation: seeded op histories with rejected-argument and callback faults, whole-pool invariants after every step", "DESIGN.md 5/C01"),
+ "C06": ("e1", "the same histories with byte-level snapshots of the whole pool before/after every step against a buffer-sharing model: functional methods must leave receiver, arguments and bystanders byte-identical (incl. grouping and order) and return columns that share no memory with any pool column; in-place edits and element writes may only be visible where the model says buffers are shared (copy() is shallow, group_by returns the receiver)",
+         "after an operation that raised only C01 invariants are demanded of its operands; object columns: pointer array only; sharing after an in-place rename is 'maybe'",
+         "deterministic simulation: seeded op histories, snapshot/aliasing oracle over the whole pool", "DESIGN.md 5/C06"),
+ "C09": ("e1", "chains of select/unselect/rename (incl. permutations)/cbind/update/modify/rbind and in-place colnames assignment (fresh names and permutations) interleaved with other edits; every column the operation does not name must stay byte-identical to the operand's column and keep its relative order, named columns carry the requested names/positions/values, rbind rows are recoverable per input with missing values for absent columns",
+         "rename/colnames collisions with a remaining name and dtype mixes NumPy cannot promote are not generated; position of a column replaced by update/modify is not demanded",
+         "deterministic simulation: seeded op histories vs column-token reference model", "DESIGN.md 5/C09"),
+ "C20": ("e12", "render observers (str, repr, to_string, print_ with seeded max_rows/max_width/truncate_width/max_elements/max_items, COLUMNS 20..200, PRINT_* settings) are scheduled between the steps of E1 and E2 histories on objects only histories reach (0-column frames after deleting every column, method-named/non-identifier/wide-Unicode names, obsolete lists, GeoJSON with null geometry): never raises, pool/settings/NumPy print options unchanged, every column name and dtype label present, min(nrow, max_rows) data rows per block, uniform display width per block, total row count stated iff rows were cut",
+         "weakest claim: the structural half is a pure function of (object, settings); width/row-count checks skipped for cells with control characters or line breaks; ListOfDicts: totality and side-effect freedom only",
+         "deterministic simulation: render observers interleaved in seeded op histories, side-effect snapshot oracle + structural checks", "DESIGN.md 5/C20"),
  "C08": ("e4", "worlds of 1..3 real interpreter lifetimes sharing one NUMBA_CACHE_DIR; the seed decides which accelerated kernel/signature is first used when, with which others in the same aggregate() call, under which cache setting, and which cache fault (wipe, rollback, prune, truncate .nbc/.nbi) or kill point inside numba's cache save (before index, between index and data, after data, torn temp file) happens; every accelerated call is compared with the pure-Python path of the same process (values rtol 1e-9, missing positions, result dtype); ordered first-use pair coverage is measured",
          "domain = helper x dtype combinations both paths accept; under an injected cache fault the accelerated call may raise or recompile but never return different data; a lifetime in which dataiter disabled Numba at import is skipped",
          "deterministic simulation: seeded process-lifetime schedules over a shared JIT cache with crash/cache-loss fault injection, differential oracle vs Python path", "DESIGN.md 5/C08"),
